@@ -19,7 +19,7 @@ tvars == <<l, bad>>
 \* does the type mention something JSON Schema cannot express (reachable through refs)?
 RECURSIVE NonJsonT(_, _, _)
 NonJsonT(T, env, seen) ==
-  CASE T.t = "prim"  -> T.p \in {"Date", "bigint"}
+  CASE T.t = "prim"  -> T.p \in {"Date", "bigint", "function"}
     [] T.t \in {"map", "set", "ta"} -> TRUE
     [] T.t = "arr"   -> NonJsonT(T.e, env, seen)
     [] T.t = "tuple" -> (\E i \in DOMAIN T.es : NonJsonT(T.es[i], env, seen)) \/ (\E i \in DOMAIN T.r : NonJsonT(T.r[i], env, seen))
@@ -42,17 +42,19 @@ IsRecursive(T, env) == \E i \in DOMAIN env : env[i].n \in RefsOfType(env[i].ty, 
 
 Ctx0(pats) == [defs |-> VObj(<<>>), pre |-> "#/$defs/", suf |-> "", pats |-> pats]
 
+\* C01 findings that change the type "as compiled" for the validator and the schema alike (reported under C01, not here)
+AsCompiled == Open \cap {"fractionalLiteralTruncated", "tplNumberPlainDecimalOnly"}
 DocBad(r, doc, schema, R, jsv) ==
   LET d == doc.v
       v == V3(d, schema, R, 8)
       \* the type as compiled: a literal that the compiler truncates (C01 finding fractionalLiteralTruncated) is not a
       \* member for the validator and the schema alike
-      strict == M3(d, r.ty, r.env, Open \cap {"fractionalLiteralTruncated"}, TRUE)
+      strict == M3(d, r.ty, r.env, AsCompiled, TRUE)
   IN (IF v # "X" /\ jsv \in {"T", "F"} /\ v # jsv THEN {"calibration-mismatch"} ELSE {})
      \cup (IF v = "T" /\ doc.val # "T" THEN {"schema-valid-but-validator-rejects"} ELSE {})
      \* (a member in default mode that is no member in strict mode differs by an undeclared key; where the default reading is
      \* itself contested - null / undefined leniency - the strict verdict says nothing about keys)
-     \cup (IF v = "T" /\ doc.val = "T" /\ strict = "F" /\ M3(d, r.ty, r.env, Open \cap {"fractionalLiteralTruncated"}, FALSE) = "T"
+     \cup (IF v = "T" /\ doc.val = "T" /\ strict = "F" /\ M3(d, r.ty, r.env, AsCompiled, FALSE) = "T"
            THEN {"schema-valid-with-undeclared-key"} ELSE {})
      \cup (IF v = "F" /\ strict = "T" /\ NullFree(d) THEN {"exact-member-is-schema-invalid"} ELSE {})
 
